@@ -116,6 +116,69 @@ Definition link_of (P : list (N * N)) (i : N) : option N :=
   | None => None
   end.
 
+(* ================================================================== (i') createLinks2: the stack core
+   Tokenizer::createLinks2 links '<' with '>' using ONE stack `type` that holds the already linked
+   { [ ( and the '<' candidates. Which '<' is pushed, which '>' links or is skipped, and when the
+   || && ; branch discards candidates is decided by Token::Match heuristics; they are abstracted as
+   the event the loop body performs on the stack, so the theorem covers every outcome of them. *)
+Inductive ev2 :=
+| E2Open                 (* linked { [ ( : type.push(token) *)
+| E2Close                (* linked } ] ) : pop the '<' on top, then the opener *)
+| E2Lt                   (* '<' taken as a template bracket: type.push(token) *)
+| E2Drop                 (* || && ; branch: one type.pop() while the top is '<' *)
+| E2Gt (pop link : bool) (* '>' (or one half of a split '>>') with a '<' on top: `continue` before the pop
+                            (pop = false), pop without linking, or pop and createMutualLinks *)
+| E2Other.
+
+Record l2state := mkL2 {
+  l2_type : list (N * bool);           (* (position, is '<'), top first *)
+  l2_pairs : list (N * N * bool)       (* (open, close, is '<>'), latest first; bracket pairs are recorded as well *)
+}.
+Inductive l2step := S2Cont (st : l2state) | S2Stuck.   (* S2Stuck: type.top() on an empty stack *)
+
+Fixpoint drop_lt (t : list (N * bool)) : list (N * bool) :=
+  match t with
+  | (_, true) :: r => drop_lt r
+  | _ => t
+  end.
+
+Definition step2 (st : l2state) (i : N) (e : ev2) : l2step :=
+  match e with
+  | E2Open => S2Cont (mkL2 ((i, false) :: l2_type st) (l2_pairs st))
+  | E2Lt => S2Cont (mkL2 ((i, true) :: l2_type st) (l2_pairs st))
+  | E2Close =>
+      match l2_type st with
+      | [] => S2Cont st                                   (* !type.empty() && ... *)
+      | _ => match drop_lt (l2_type st) with
+             | [] => S2Stuck
+             | (o, _) :: r => S2Cont (mkL2 r ((o, i, false) :: l2_pairs st))
+             end
+      end
+  | E2Drop =>
+      match l2_type st with
+      | (_, true) :: r => S2Cont (mkL2 r (l2_pairs st))
+      | _ => S2Cont st
+      end
+  | E2Gt pop link =>
+      match l2_type st with
+      | (o, true) :: r =>
+          if pop then S2Cont (mkL2 r (if link then (o, i, true) :: l2_pairs st else l2_pairs st))
+          else S2Cont st
+      | _ => S2Cont st
+      end
+  | E2Other => S2Cont st
+  end.
+
+Fixpoint loop2 (st : l2state) (i : N) (es : list ev2) : l2step :=
+  match es with
+  | [] => S2Cont st
+  | e :: r => match step2 st i e with
+              | S2Cont s => loop2 s (i + 1) r
+              | S2Stuck => S2Stuck
+              end
+  end.
+Definition create_links2 (es : list ev2) : l2step := loop2 (mkL2 [] []) 0 es.
+
 (* ================================================================== (ii) the AST setters *)
 Record heap := mkH {
   h_par : N -> option N;   (* mAstParent *)
@@ -391,6 +454,27 @@ Definition oN_eqb (a b : option N) : bool :=
   | _, _ => false
   end.
 
+(* 6. all links of the dump ({ } ( ) [ ] and < >) are properly nested: one stack of the positions at
+   which the open tokens expect their partner *)
+Fixpoint nest_check (t : tables) (pos : PM.t N) (ts : list elem) (i : N) (stack : list N) : option N :=
+  match ts with
+  | [] => None
+  | e :: r =>
+      match get (t_link t) (e_id e) with
+      | None => nest_check t pos r (i + 1) stack
+      | Some y =>
+          match nfind y pos with
+          | None => Some i
+          | Some j =>
+              if i <? j then nest_check t pos r (i + 1) (j :: stack)
+              else match stack with
+                   | c :: s' => if c =? i then nest_check t pos r (i + 1) s' else Some i
+                   | [] => Some i
+                   end
+          end
+      end
+  end.
+
 Inductive verdict :=
 | VOk
 | VDupId (id : N)
@@ -399,7 +483,8 @@ Inductive verdict :=
 | VCycle (tok : N)
 | VLink (tok : N)
 | VBracketUnmatched (pos : N)
-| VBracketLink (pos : N).
+| VBracketLink (pos : N)
+| VNesting (pos : N).
 
 Fixpoint first_bad {A} (f : A -> bool) (l : list A) : option A :=
   match l with
@@ -434,7 +519,10 @@ Definition check_doc (d : doc) : verdict :=
                           match first_bad (fun il => oN_eqb (snd il) (nfind (fst il) pm))
                                           (dumped_bracket_links t ts pos) with
                           | Some il => VBracketLink (fst il)
-                          | None => VOk
+                          | None => match nest_check t pos ts 0 [] with
+                                    | Some i => VNesting i
+                                    | None => VOk
+                                    end
                           end
                       | LUnmatched i => VBracketUnmatched i
                       | LStuck => VBracketUnmatched 0
